@@ -45,6 +45,9 @@ CLAIMS = {
  "C16": dict(cat="proof", tech="machine-checked proof in Coq (named planes / revolve axis from regenerated tables; geometry theorems over R in progress) + node-for-node correspondence of every shape builder + closed-form geometry oracle",
    text="Every From<_> for Tree body of fidget-shapes is a Gallina tree builder generic in the scalar type; the f32 instance imported into the Context model equals Tree::from(shape) imported into a Context node-for-node for all 26 shapes and named planes on random parameters (including nalgebra's f32 affine products). Named-plane axes and RevolveY's radius plane are regenerated from the source and proved to be the documented ones. The oracle compares every shape with closed-form f64 geometry at 24 points per case.",
    ref="DESIGN.md §5 C16", note="Geometry theorems over the reals (inside <-> negative, T(s)(p) = s(T^-1 p)) are being proved (ShapesSound)."),
+ "C19": dict(cat="proof", tech="machine-checked proof in Coq of the solver's bookkeeping (seed packing, result keys, fixpoint) + seed-table correspondence through a hook + solution oracle on both backends",
+   text="Kernel-checked: column gi of the Jacobian reads lane gi mod 3 of sample gi / 3, which carries the unit seed of free variable gi and of no other (any number of unknowns); solve returns a value for exactly the free parameters; when every residual is exactly zero the start is returned unchanged. The seed rows left in the gradient input array and the Jacobian are observed through a cfg(fidget_verif) hook and compared with the model / the coefficient matrix; solutions, key sets, fixed parameters, satisfied starts and backend agreement are checked on random consistent systems.",
+   ref="DESIGN.md §5 C19", note="Partial: convergence of the numerical core is tested, not proved."),
 }
 
 def main():
@@ -61,7 +64,7 @@ def main():
         "hooks": {"guard": "fidget_verif",
                   "enable": "RUSTFLAGS=\"--cfg fidget_verif\" (set in /verif/harness/.cargo/config.toml [build] rustflags)",
                   "baseline_off_cmd": "cd /repo && cargo test --workspace --no-fail-fast --offline",
-                  "source_commits": ["8b89353"], "add_only": True},
+                  "source_commits": ["8b89353", "7b5040e"], "add_only": True},
         "engines": [{"name": "coq-model+correspondence", "path": "/verif/check", "serves_properties": sorted(CLAIMS),
                      "kind_free_text": "Coq 8.16 theorems about executable Gallina models of fidget; models tied to /repo by differential execution (extracted OCaml runner vs Rust harness on the same generated cases), by tables regenerated from the Rust source on every run, and by kernel-verified validators run on the implementation's own output"}],
         "checks": checks,
